@@ -4,6 +4,6 @@ CONSTANTS
   MaxVal = 8
   ExportMode = "quick"
 INVARIANTS Inv16_Classes Inv16_MH
-PROPERTIES P_C16
+PROPERTIES P_C16 P_Hist
 CONSTRAINT Emit16
 CHECK_DEADLOCK FALSE
